@@ -162,6 +162,14 @@ AIMED = {
     'sorted_all_kinds': 'enum E:short { A, B }\nstruct S { a:int (key); b:ubyte; }\nstruct F { a:float (key); }\ntable K { k:string (key); n:int; }\ntable N { n:ulong (key); s:string; }\n'
                         'table T { vs:[string] (sorted); vi:[int] (sorted); vb:[ubyte] (sorted); vd:[double] (sorted); vS:[S] (sorted); vF:[F] (sorted); vK:[K] (sorted); vN:[N] (sorted); '
                         've:[E]; inner:T; u:U; uv:[U]; }\nunion U { T, K }\nroot_type T;\n',
+    'keys_of_every_type': 'enum E:short { A, B }\nenum F:ubyte (bit_flags) { X, Y }\nenum G:bool { N, M }\n'
+                          'table Ke { k:E (key); n:int; }\ntable Kp { a:int; k:E = B (primary_key); }\ntable Kf { k:F = X (key); }\ntable Kg { k:G = N (key); }\n'
+                          + ''.join('table K%s { k:%s (key); v:string; }\n' % (t, t) for t in ('bool', 'byte', 'ubyte', 'short', 'ushort', 'int', 'uint', 'long', 'ulong', 'float', 'double'))
+                          + 'struct Se { k:E (key); p:ubyte; }\nstruct Sb { k:bool (key); }\n'
+                          'table T { ve:[Ke] (sorted); vp:[Kp] (sorted); vf:[Kf] (sorted); vg:[Kg]; vb:[Kbool] (sorted); vd:[Kdouble] (sorted); vu:[Kulong] (sorted); se:[Se] (sorted); sb:[Sb] (sorted); '
+                          'k2:E = A (key); k3:string (key); }\nroot_type T;\n',
+    'bool_enums': 'enum Flag:bool { On = 1 }\nenum Sw:bool { Off = 0, On = 1 }\nstruct S { f:Flag; s:Sw; a:[Sw:3]; }\n'
+                  'table T { f:Flag = On; s:Sw = Off; vf:[Flag]; vs:[Sw]; st:S; o:Sw = null; k:Sw = On (key); }\nroot_type T;\n',
     'everything_small': 'namespace A.B;\nenum E:ushort (bit_flags) { X, Y = 4 }\nstruct S (force_align: 16) { e:E; a:[char:3]; }\nnamespace ;\n'
                         'table T { s:A.B.S (required); e:A.B.E = Y; o:long = null; f:float = -0.5 (id: 3); t:T (id: 2); x:[A.B.S] (id: 4); }\n'
                         .replace('(required)', '(required, id: 0)').replace('= Y;', '= Y (id: 1);').replace('= null;', '= null (id: 5);'),
@@ -169,7 +177,7 @@ AIMED = {
 
 
 def aimed_job(a):
-    name, text, flatcc, bdir, thorough = a
+    name, text, flatcc, bdir, thorough, rt = a
     d = os.path.join(bdir, 'aimed_' + name); shutil.rmtree(d, ignore_errors=True); os.makedirs(d)
     p = os.path.join(d, 'aim.fbs'); open(p, 'w').write(text)
     probs, n = [], 0
@@ -187,6 +195,16 @@ def aimed_job(a):
             errs = '\n'.join(l for l in err.split('\n') if 'error' in l)[:600]
             probs.append(('compile:%s:%s' % (err_site(err), norm_err(err)), 'generated code (%s, aimed schema %s) does not compile: %s' % (shape, name, errs),
                           dict(rep, translation_unit=tu, compiler_output='\n'.join(l for l in err.split('\n') if 'warning' not in l)[:3000])))
+        elif shape in ('all', 'g') and rt:
+            # LINK: every generated function (also the static / inline ones nobody calls here) must resolve against the runtime library
+            n += 1
+            rc2, out2, err2 = U.run(['gcc', '-std=c11', '-O0', '-w', '-DNDEBUG', '-fkeep-static-functions', '-fkeep-inline-functions',
+                                     '-I' + os.path.join(lib.REPO, 'include'), '-I' + od, os.path.join(od, 'tu.c')] + list(rt) + ['-o', os.path.join(od, 'linkprobe'), '-lm'], timeout=300)
+            if rc2 != 0:
+                syms = sorted(set(re.findall(r"undefined reference to [`'‘]([^'’]+)['’]", err2)))
+                key = 'link:undefined-reference:%s' % syms[0] if syms else 'link:%s' % norm_err(err2)
+                probs.append((key, 'generated code (%s, aimed schema %s) compiles but does not LINK against the runtime library: undefined %s' % (shape, name, ', '.join(syms[:6]) or err2[-300:]),
+                              dict(rep, translation_unit=tu, linker_output=err2[-2000:])))
     if not probs: shutil.rmtree(d, ignore_errors=True)
     return probs, n
 
@@ -563,7 +581,7 @@ def run(ctx):
     ctx.log('generated %d schemas (%d structs, %d tables); running every output shape' % (nS, sum(len(m[2]) for m in meta), sum(len(m[3]) for m in meta)))
     results = U.pmap(schema_job, jobs)
     ncomp = 0
-    for (probs, n), nm in zip(U.pmap(aimed_job, [(k, t, flatcc, ctx.bdir, ctx.thorough) for k, t in sorted(AIMED.items())]), sorted(AIMED)):
+    for (probs, n), nm in zip(U.pmap(aimed_job, [(k, t, flatcc, ctx.bdir, ctx.thorough, rt) for k, t in sorted(AIMED.items())]), sorted(AIMED)):
         ncomp += n
         ctx.count('aimed:' + nm, klass='aimed_schema'); ctx.count('x', nontrivial=False, klass='gcc_translation_units', n=n)
         for key, what, det in probs: ctx.violation(key, what, det)
